@@ -245,6 +245,65 @@ def emit(rows, decls, row_ids):
     return "\n".join(out) + "\n"
 
 
+# other build configurations of the crate in which the layout must be the same: the release profile (cfg(debug_assertions) off) and
+# feature subsets (the full set is the default configuration of every other check)
+ALL_FEATURES = ["alloc", "internals", "serde", "zeroize", "const-default"]
+CONFIGS = ([("release_full", None, True), ("release_none", [], True), ("none", [], False), ("zeroize_serde_constdefault", ["zeroize", "serde", "const-default"], False),
+            ("faster_hex", ["faster-hex"], False)]
+           + [("only_" + f.replace("-", "_"), [f], False) for f in ALL_FEATURES]
+           + [("without_" + f.replace("-", "_"), [g for g in ALL_FEATURES if g != f], False) for f in ALL_FEATURES])
+CONFIG_NS = [0, 1, 2, 3, 4, 5, 7, 8, 15, 16, 17, 31, 32, 33, 64, 100, 255, 256, 1000, 1024]
+
+
+def run_configs(root, wd, failures):
+    """the reduced table (20 lengths x 14 element layouts) compiled against the crate built in each other configuration"""
+    rows = []
+    for (name, _decl, ty, zst, val) in FIXED:
+        for n in CONFIG_NS:
+            rows.append((ty, f"U{n}", n, {"addr": True, "val": val, "cls": "config"}))
+    text = emit(rows, [], list(range(len(rows))))
+
+    def do(cfg):
+        try:
+            lib = E.Lib(root, cfg)
+        except RuntimeError as ex:
+            return (cfg, "build", str(ex))
+        src = os.path.join(wd, f"cfg_{cfg[0]}.rs")
+        exe = os.path.join(wd, f"cfg_{cfg[0]}")
+        open(src, "w").write(text)
+        rc, err = lib.rustc(src, exe)
+        if rc != 0:
+            return (cfg, "compile", err)
+        rc, out, err = E.run_exe(exe)
+        return (cfg, "run", out, err, rc)
+
+    per = {}
+    for r in E.pmap(do, CONFIGS):
+        cfg = r[0]
+        if r[1] in ("build", "compile"):
+            print(r[2][-2500:])
+            print(f"INFRA: configuration {cfg[0]}: the crate or the layout program does not build")
+            return None
+        out = r[2]
+        if "DONE fails=" not in out and "FAIL row=" not in out:
+            print(out[-1500:], r[3][-1500:])
+            print(f"INFRA: layout program for configuration {cfg[0]} did not finish")
+            return None
+        seen = set()
+        for line in out.splitlines():
+            if line.startswith("FAIL row="):
+                rid = int(line.split()[1].split("=")[1])
+                if rid in seen or len([f for f in failures if cfg[0] in f["msg"]]) >= 2:
+                    continue
+                seen.add(rid)
+                ty, nty, k, fl = rows[rid]
+                hdr = f"// C01 configuration: {cfg[0]} features={cfg[1]} release={cfg[2]}\n"
+                path = E.save_replay(root, PID, "layout_cfg_" + cfg[0], hdr + emit(rows, [], [rid]))
+                failures.append({"msg": f"[configuration {cfg[0]}: features={'full' if cfg[1] is None else cfg[1]}, {'release' if cfg[2] else 'dev'} profile] GenericArray<{ty}, {nty}> (N = {k}) vs [{ty}; {k}]: {line}", "replay": path})
+        per["config:" + cfg[0]] = len(rows)
+    return per
+
+
 def run(root, pid, tier, seed):
     t0 = time.time()
     lib = E.Lib(root)
@@ -285,7 +344,10 @@ def run(root, pid, tier, seed):
                     path = E.save_replay(root, pid, "layout", text)
                     failures.append({"msg": f"GenericArray<{ty}, {nty}> (N = {k}) vs [{ty}; {k}]: {line}", "replay": path})
                 failed_rows.add(rid)
-    classes = {}
+    per_cfg = run_configs(root, wd, failures)
+    if per_cfg is None:
+        return None
+    classes = dict(per_cfg)
     nontrivial = set()
     for (ty, nty, k, fl) in rows:
         classes[fl["cls"]] = classes.get(fl["cls"], 0) + 1
@@ -294,9 +356,10 @@ def run(root, pid, tier, seed):
     samples = [{"element": rows[i][0], "length_type": rows[i][1][:120], "N": rows[i][2], "checks": sorted(k for k, v in rows[i][3].items() if v is True)}
                for i in (0, 17, len(rows) // 2, len(rows) - 3, len(rows) - 2, len(rows) - 1)]
     return E.evidence(
-        pid, tier, seed, "exploration", len(rows), len(nontrivial),
+        pid, tier, seed, "exploration", len(rows) + sum(per_cfg.values()), len(nontrivial),
         "rows = (element type, type-level length) compiled into generated Rust programs. Table, enumerated completely: every N in 0..=1024 x 14 element layouts (u8..u128, (), padded tuples, [u8;3], 64-byte array, align(16), align(64), aligned zero-sized type, packed struct) plus the 123 typenum constants above 1024 (2^k, 2^k-1, 10^k, 3600; up to 2^63 for zero-sized elements, N*64 < 2^60 otherwise); ConstDefault-built arrays for 73 lengths read back through the slice view; random rows: element types from a grammar (primitives, tuples, arrays, structs under repr(Rust|C|packed|align), PhantomData, [u64;0], nested GenericArray) x random binary digit strings to depth 62 written as UInt<...> types. "
         "Oracle: the native array [T; N] under the same compiler: N::USIZE, size_of, align_of, size of struct{u8, array}, field offset after a u8, as_slice pointer range == the array's own extent, address of element i == base + i*size_of::<T>() and aligned, and for padding-free types three value read paths (AsRef<[T;N]>, indexing, into_array/from_array). "
+        "Configurations: a reduced table (20 lengths x the 14 element layouts, all checks) is compiled against the crate built in 15 other configurations - release profile (cfg(debug_assertions) off) with the full and the empty feature set, no features, every single feature, the full set minus each feature, zeroize+serde+const-default without alloc, faster-hex. "
         "non-trivial = T not a plain u8/u16/u32/u64 or N not in {1,2,4,8}; distinct = distinct (element type, length type)",
         samples, classes, exhaustive=False,
         assumptions=["layout facts are those of this rustc on x86_64; the table part is complete, the random part a sample"],
@@ -304,7 +367,12 @@ def run(root, pid, tier, seed):
 
 
 def replay(root, pid, path):
-    lib = E.Lib(root)
+    cfg = None
+    first = open(path).readline()
+    if first.startswith("// C01 configuration: "):
+        tag = first.split()[3]
+        cfg = next((c for c in CONFIGS if c[0] == tag), None)
+    lib = E.Lib(root, cfg)
     exe = os.path.join(E.workdir(root, pid), "replay_exe")
     rc, err = lib.rustc(path, exe)
     if rc != 0:
